@@ -3,10 +3,13 @@ package main
 import (
 	"bytes"
 	"fmt"
+	"os"
+	"reflect"
 	"runtime"
 	"strconv"
 	"sync"
 	"sync/atomic"
+	"unsafe"
 
 	"github.com/cloudwego/frugal/verifhook"
 )
@@ -23,10 +26,66 @@ var (
 	hookMu        sync.Mutex
 	hookBuf       []hookEv
 	pendingBlocks []hookEv
+	regBuf        []hookEv
+	regLines      int
+	abiNames      map[uintptr]abiName
 )
+
+type abiName struct {
+	s string
+	p bool
+}
+
+func abiOf(t reflect.Type) uintptr {
+	return uintptr((*[2]unsafe.Pointer)(unsafe.Pointer(&t))[1])
+}
+
+// regLine renders the registry events recorded since the last call ("" if none): type addresses
+// become the names of the generated types (s = "" for a type that is not one of them).
+func regLine() string {
+	hookMu.Lock()
+	evs := append([]hookEv(nil), regBuf...)
+	regBuf = regBuf[:0]
+	hookMu.Unlock()
+	if len(evs) == 0 {
+		return ""
+	}
+	if abiNames == nil {
+		abiNames = map[uintptr]abiName{}
+		for name, rt := range genTypes {
+			abiNames[abiOf(rt)] = abiName{name, false}
+			abiNames[abiOf(reflect.PtrTo(rt))] = abiName{name, true}
+		}
+	}
+	var b bytes.Buffer
+	fmt.Fprintf(&b, `"ev":"Reg","pe":%d,"rs":%d,"obs":{"out":"ok","events":[`, os.Getpid(), regLines)
+	regLines++
+	for i, e := range evs {
+		if i > 0 {
+			b.WriteByte(',')
+		}
+		kind := map[int]string{verifhook.EvSlotStore: "store", verifhook.EvGotLock: "lock", verifhook.EvUnlock: "unlock",
+			verifhook.EvPfWrite: "pf", verifhook.EvLinkWrite: "link", verifhook.EvRollback: "rollback"}[e.ev]
+		if e.ev == verifhook.EvRollback {
+			fmt.Fprintf(&b, `{"k":"rollback","s":"","p":false,"np":%d,"nl":%d}`, clampU(e.a), clampU(e.b))
+			continue
+		}
+		n := abiNames[e.a]
+		fmt.Fprintf(&b, `{"k":%q,"s":%q,"p":%v}`, kind, n.s, n.p)
+	}
+	b.WriteString(`]}`)
+	return b.String()
+}
 
 func init() {
 	verifhook.Set(func(ev int, a, b, c uintptr) {
+		if ev >= verifhook.EvSlotStore {
+			// registry events are always kept: the sequential registry model (spec/RegSeq.tla) follows
+			// every lock section of the process.  All of them are emitted under the registry mutex.
+			hookMu.Lock()
+			regBuf = append(regBuf, hookEv{ev, a, b, c, 0})
+			hookMu.Unlock()
+		}
 		if !hookOn.Load() {
 			if ev == verifhook.EvSpanBlock {
 				// a block taken while nothing is recorded: remember it, so that the next recorded
